@@ -215,6 +215,22 @@ class Program(object):
 
 
 # ---- small ast helpers ---------------------------------------------------------------------------
+def clone(node):
+    """deep copy of a syntax tree that follows the declared fields only (nodes carry a `_parent` back-pointer, so
+    copy.deepcopy would copy the whole module); positions are kept"""
+    if isinstance(node, list):
+        return [clone(x) for x in node]
+    if not isinstance(node, ast.AST):
+        return node
+    new = node.__class__()
+    for name, value in ast.iter_fields(node):
+        setattr(new, name, clone(value))
+    for a in ('lineno', 'col_offset', 'end_lineno', 'end_col_offset'):
+        if hasattr(node, a):
+            setattr(new, a, getattr(node, a))
+    return new
+
+
 def unparse(node):
     return ast.unparse(node) if node is not None else ''
 
